@@ -12,7 +12,7 @@ from . import core, props
 from .scen import g, draw, op, iff, scenario, IntRange, seeds
 
 GEN_CFG = props.INV_CFG
-GEN_EVENTS = "scen.begin,scen.end,run.begin,run.end,h.phase,contract,h.once.end,fuzz.end,reach,edge,fresh,tb.errorf,harness.done"
+GEN_EVENTS = "scen.begin,scen.end,run.begin,run.end,h.phase,contract,h.once.end,fuzz.end,reach,edge,fresh,genpanic,tb.errorf,harness.done"
 C12_EVENTS = "scen.begin,scen.end,run.begin,run.end,h.phase,no-gen-phase,no-shrink-phase,contract,final-contracts-only,tb.errorf,harness.done"
 
 INT_KINDS = {"Int": (True, 64), "Int8": (True, 8), "Int16": (True, 16), "Int32": (True, 32), "Int64": (True, 64), "Byte": (False, 8),
